@@ -49,7 +49,34 @@ THEOREMS = [
 
 STRIDES = [(2, 4), (4, 8), (2, 2), (4, 4), (1, 2), (2, 8), (4, 2), (1, 1)]
 TOL_SCORE = 2e-5
-KNIFE = Fraction(1, 10**6)
+# Rounding knife edges.  The model reports for every rounded coordinate the margin |2·frac − 1| (twice its distance,
+# in PAF-grid units, from the nearest half-integer).  The real code interpolates with float32 `linspace` values
+# (relative error 2^-24 ≈ 6e-8): the un-rounded coordinate is off by ≤ |dst−src|·6e-8/stride ≤ 6e-5 grid units for
+# extents up to 1000 px.  Decisions closer to a tie than TOL_GRID = 1e-4 grid units are knife edges: either
+# neighbouring cell is accepted, they are counted (chk.knife_edges), and when the implementation lands on the other
+# side than the Float run of the model the candidate's score and the sample's grouping are not compared.
+TOL_GRID = Fraction(1, 10**4)
+KNIFE = 2 * TOL_GRID
+
+
+def cmp_subs(impl, model, margins):
+    """compare subscripts point by point.  Returns (verdict, n_knife): verdict 'eq' (identical), 'knife' (differs
+    only at knife-edge coordinates, by one cell) or 'diff'."""
+    verdict, n_knife = "eq", 0
+    for (ir, ic), (mr, mc), (gr, gc) in zip(impl, model, margins):
+        for a, b, g in ((ir, mr, gr), (ic, mc, gc)):
+            knife = g <= KNIFE
+            n_knife += knife
+            if a == b:
+                continue
+            if knife and abs(a - b) == 1:
+                if verdict == "eq":
+                    verdict = "knife"
+            else:
+                verdict = "diff"
+    if len(impl) != len(model):
+        verdict = "diff"
+    return verdict, n_knife
 
 
 # ------------------------------------------------------------------ generators
@@ -475,9 +502,9 @@ def parse_model(line, nT, n_nodes):
         blk = f[i * (2 + 2 * nT):(i + 1) * (2 + 2 * nT)]
         cands[i]["ch"] = (int(blk[0]), int(blk[1]))
         cands[i]["fsubs"] = [(int(blk[2 + 2 * k]), int(blk[3 + 2 * k])) for k in range(nT)]
-        blk = r[i * (1 + 2 * nT):(i + 1) * (1 + 2 * nT)]
-        cands[i]["margin"] = unrat(blk[0])
-        cands[i]["rsubs"] = [(int(blk[1 + 2 * k]), int(blk[2 + 2 * k])) for k in range(nT)]
+        blk = r[i * 4 * nT:(i + 1) * 4 * nT]
+        cands[i]["rsubs"] = [(int(blk[4 * k]), int(blk[4 * k + 1])) for k in range(nT)]
+        cands[i]["margins"] = [(unrat(blk[4 * k + 2]), unrat(blk[4 * k + 3])) for k in range(nT)]
     out["cands"] = cands
     if out["status"] == "ok":
         t = out["conn"]
@@ -565,6 +592,7 @@ def compare_phase(chk, c, model, tag, stats, do_case=True):
                            f"groups={exp_n}", f"refine={sc['refinement']}", f"batch={B}", f"scale={sc['scale']}",
                            "missing" if any(p is None for an in sc["frames"][b] for p in an) else "complete"])
         bad = False
+        knife_sample = False
         # -- (1) candidates, subscripts, scores
         ei = out["edge_inds"][b].tolist()
         epi = out["edge_peak_inds"][b].tolist()
@@ -582,18 +610,24 @@ def compare_phase(chk, c, model, tag, stats, do_case=True):
                 ich = sorted({(int(subs_t[i, p, 0, 2]), int(subs_t[i, p, 1, 2])) for p in range(nT)}) if nT else []
                 same_rc = all(int(subs_t[i, p, 0, 0]) == int(subs_t[i, p, 1, 0]) and int(subs_t[i, p, 0, 1]) == int(subs_t[i, p, 1, 1])
                               for p in range(nT))
-                if isub != c["fsubs"] or (nT and ich != [c["ch"]]) or not same_rc:
+                vf, n_knife = cmp_subs(isub, c["fsubs"], c["margins"])
+                vq, _ = cmp_subs(isub, c["rsubs"], c["margins"])
+                chk.knife_edges += n_knife
+                if vf == "diff" or (nT and ich != [c["ch"]]) or not same_rc:
                     chk.disagree("make_line_subs == BottomUp.lineSubs (Float run)", {**case, "cand": k},
                                  {"subs": isub, "ch": ich}, {"subs": c["fsubs"], "ch": c["ch"]})
                     bad = True
                     break
-                if c["margin"] is not None and c["margin"] > KNIFE:
-                    if isub != c["rsubs"]:
-                        chk.disagree("make_line_subs == BottomUp.lineSubs (exact run)", {**case, "cand": k}, isub, c["rsubs"])
-                        bad = True
-                        break
-                else:
-                    chk.knife_edges += 1
+                if vq == "diff":
+                    chk.disagree("make_line_subs == BottomUp.lineSubs (exact run)", {**case, "cand": k}, isub, c["rsubs"])
+                    bad = True
+                    break
+                if vf == "knife":
+                    # the implementation sampled the neighbouring cell at a knife edge: the model's score for this
+                    # candidate (and what follows from it) is about another cell — not compared
+                    knife_sample = True
+                    stats["knife_candidates"] += 1
+                    continue
                 if not (abs(ls[i] - c["score"]) <= TOL_SCORE):
                     chk.disagree("score_paf_lines == BottomUp.lineScore", {**case, "cand": k}, ls[i], c["score"])
                     bad = True
@@ -613,6 +647,8 @@ def compare_phase(chk, c, model, tag, stats, do_case=True):
         if m["status"] != "ok":
             chk.disagree("forward ok vs model", case, "ok", m["status"])
             bad = True
+        elif knife_sample:
+            stats["knife_samples"] += 1
         elif not bad:
             s_e = sc["scale"] * float(_f32(sc["effs"][b]))
             dec = [(p[0] * sc["cs"] / s_e, p[1] * sc["cs"] / s_e) for p in peaks_b]
@@ -803,19 +839,20 @@ def subs_cases(chk, n):
         for i, blk in enumerate(o.split(" | ")):
             fpart, qpart = [x.split() for x in blk.split(" ; ")]
             fs = [(int(fpart[2 + 2 * k]), int(fpart[3 + 2 * k])) for k in range(nT)]
-            qs = [(int(qpart[1 + 2 * k]), int(qpart[2 + 2 * k])) for k in range(nT)]
+            qs = [(int(qpart[4 * k]), int(qpart[4 * k + 1])) for k in range(nT)]
+            mg = [(unrat(qpart[4 * k + 2]), unrat(qpart[4 * k + 3])) for k in range(nT)]
             isub = [(int(t[i, p, 0, 0]), int(t[i, p, 0, 1])) for p in range(nT)]
             ich = {(int(t[i, p, 0, 2]), int(t[i, p, 1, 2])) for p in range(nT)}
-            if isub != fs or ich != {(int(fpart[0]), int(fpart[1]))}:
+            vf, n_knife = cmp_subs(isub, fs, mg)
+            vq, _ = cmp_subs(isub, qs, mg)
+            chk.knife_edges += n_knife
+            if vf == "diff" or ich != {(int(fpart[0]), int(fpart[1]))}:
                 chk.disagree("make_line_subs == BottomUp.lineSubs (Float run, unit level)", case,
                              {"subs": isub, "ch": sorted(ich)}, {"subs": fs, "ch": fpart[:2]})
                 break
-            if unrat(qpart[0]) > KNIFE:
-                if isub != qs:
-                    chk.disagree("make_line_subs == BottomUp.lineSubs (exact run, unit level)", case, isub, qs)
-                    break
-            else:
-                chk.knife_edges += 1
+            if vq == "diff":
+                chk.disagree("make_line_subs == BottomUp.lineSubs (exact run, unit level)", case, isub, qs)
+                break
             # in-bounds (theorem line_subs_in_bounds on the implementation)
             if any(not (0 <= r_ < h and 0 <= c_ < w) for r_, c_ in isub):
                 chk.fail("make_line_subs returns a subscript outside the PAF tensor", case, isub)
@@ -890,7 +927,7 @@ def keeptop_cases(chk, n):
 
 # ------------------------------------------------------------------ main
 def new_stats():
-    return {"scenes": 0, "H1": 0, "H2": 0, "orphan_max": None,
+    return {"knife_candidates": 0, "knife_samples": 0, "scenes": 0, "H1": 0, "H2": 0, "orphan_max": None,
             "h1_worst_cells": 0.0, "true_min": None, "false_max": None,
             "dom": None, "exch": None, "score_err": 0.0, "oracle_fail_H": []}
 
@@ -991,6 +1028,8 @@ def main(chk: Check):
         "H2_max_orphan_pair_score": stats["orphan_max"],
         "H2_min_shared_peak_dominance": stats["dom"], "H2_min_exchange_margin": stats["exch"],
         "max_line_score_error": stats["score_err"],
+        "knife_edge_candidates_not_score_compared": stats["knife_candidates"],
+        "knife_edge_samples_not_grouping_compared": stats["knife_samples"],
         "oracle_failures_with_hypotheses": stats["oracle_fail_H"][:10],
     }
 
